@@ -1,3 +1,4 @@
 //! Independent reference oracles, written from the standards and the property statements.
 pub mod mnemonic;
 pub mod resolver;
+pub mod lex488;
